@@ -410,3 +410,44 @@ func Classify(prop string, f Factory, stats []*explore.Stats, maxSteps int) *Out
 	}
 	return out
 }
+
+// RacePass runs the -race build of a check binary (path in env var binEnv) in its free-running mode
+// (selected by setting flagEnv=1): the same harness bodies on real goroutines under the Go race detector.
+// This is a dynamic, sampling analysis that complements the scheduler (which cannot interleave plain
+// accesses); it is reported apart from the exhaustive coverage. Returns runs, races and the report.
+func RacePass(binEnv, flagEnv string) (runs, races int, note, report string, err error) {
+	bin := os.Getenv(binEnv)
+	if bin == "" {
+		return 0, 0, "not run (" + binEnv + " unset)", "", nil
+	}
+	cmd := exec.Command(bin)
+	cmd.Env = append(os.Environ(), flagEnv+"=1", "GORACE=halt_on_error=1 exitcode=66")
+	out, e := cmd.CombinedOutput()
+	text := string(out)
+	last := strings.TrimSpace(text)
+	if i := strings.LastIndexByte(last, '\n'); i >= 0 {
+		last = last[i+1:]
+	}
+	fmt.Sscanf(last, "racepass runs=%d", &runs)
+	if ee, ok := e.(*exec.ExitError); ok && ee.ExitCode() == 66 {
+		return runs, 1, "ran", text, nil
+	}
+	if e != nil {
+		return runs, 0, "failed", text, fmt.Errorf("race pass: %v: %s", e, text)
+	}
+	return runs, 0, "ran", text, nil
+}
+
+// ReportRace prints a VIOLATION for a race report and returns 1, or 0 when there was none.
+func ReportRace(prop string, races int, report string) int {
+	if races == 0 {
+		return 0
+	}
+	lines := strings.Split(report, "\n")
+	if len(lines) > 30 {
+		lines = lines[:30]
+	}
+	path := WriteReplay(prop, "race", map[string]interface{}{"property": prop, "race_report": report})
+	fmt.Printf("VIOLATION property=%s replay=%s\n  the Go race detector reported a data race in the free-running pass:\n    %s\n", prop, path, strings.Join(lines, "\n    "))
+	return 1
+}
